@@ -12,6 +12,8 @@ def plan(tier):
             "extra_col", "wild",
             # bed
             "bed_k0", "bed_k1", "bed_k2", "bed_k9", "bed_mixed_k", "bed_empty_aux",
+            # columns containing double quotes (csv quoting): judged by parsed == written only
+            "bed_quote_first", "bed_quote_inner", "gff_quote_columns",
         ],
         "rule": "one run = one file: records -> real writer -> bytes -> real reader (exact), then the same bytes "
                 "under two modelled faults and one arbitrary-byte fault; plus every attribute column over a "
@@ -27,8 +29,11 @@ def plan(tier):
                         "skipped, integers parsed by u64::from_str (0x-prefixed hex integers are left "
                         "unconstrained); BED: column count fixed by the first record (uniform files); GFF: exactly "
                         "9 columns per record",
-                        "double quotes / CR / non-UTF-8 bytes (csv quoting) are outside the wire model: only "
-                        "totality is checked for them (mode wild)"],
+                        "csv quoting is outside the byte-level wire model: records whose BED columns / plain GFF "
+                        "columns contain double quotes (first position, fully quoted, inner, trailing) are judged "
+                        "by parsed == written only (mode rt); corrupted files with quotes / CR / non-UTF-8 bytes "
+                        "only for totality (mode wild); GFF attribute keys / values stay without double quotes "
+                        "(the reader strips quotes from them by design)"],
     }
 
 
